@@ -293,10 +293,26 @@ func e2eIDsWorker(args []string) error {
 			w.Assoc(pn)
 		}
 
-		for round := 0; round < p.Rounds && !w.Died; round++ {
+		// a long run of live TEIDs: sessions with 24 CHOOSE PDRs each take consecutive values from a known cursor position; the
+		// cursor is put back onto that run before some of the bursts, so that concurrent allocations have to step over it together
+		const runStart = 70000
+
+		_ = w.Agent.Set(fmt.Sprintf("TEIDCURSOR %d", runStart))
+
+		for i := 0; i < 50 && !w.Died; i++ {
+			c1, u1 := next()
+			w.Estab(peers[i%len(peers)], simpleSession(c1, u1, 24))
+		}
+
+		for round := 0; round < p.Rounds+9 && !w.Died; round++ {
 			k := 2 + rng.Intn(len(peers)-1)
 
 			var reqs []*e2e.SessReq
+
+			if round%4 != 0 {
+				k = len(peers)
+				_ = w.Agent.Set(fmt.Sprintf("TEIDCURSOR %d", runStart))
+			}
 
 			for i := 0; i < k; i++ {
 				c1, u1 := next()
